@@ -27,6 +27,10 @@ CHECKS = {
    text="The real Box<dyn Sound> of a static sound is driven chunk by chunk on a simulated audio clock next to an executable reference (integer transport + 4-point Hermite at the accumulated position). Seeded exploration over length, slice, start, loop region, reverse, rate, sample-rate pair, chunk partition and seek / loop commands at chunk boundaries, plus (thorough) the complete small-scope space length <= 6 as a workload source. Bit-exact comparison at rate 1, tolerance 2e-5 otherwise; poison frames outside the slice; end detection and reported position against the model.",
    note="Reference model written from the documentation and the property text; Info is an empty MockInfo; after a seek only what the property promises (within one frame) is demanded. One open known finding: rate 1 is not bit-exact at sample rates with sr*(1/sr) != 1.0 (those rates are then not generated for the bit-exact clause).",
    technique="deterministic simulation of the sound on a simulated audio clock against an executable reference model (refinement check), seeded + small-scope workloads"),
+ "C07": dict(level="exploration", design="3 C07, appendix A.2",
+   text="Probe resources built on kira's public command module (a Sound, an Effect and a Modulator, placed on the main track, on sub-tracks, three levels deep, and in the modulator arena) carry two command kinds with unique checksummed payloads and log every read. (ops) bursts of writes between callbacks, also before the resource is picked up, checked against the sequential latest-value mailbox model: polled exactly once per callback, exactly the last write applied, nothing applied twice or late. (sched) a gameplay task writes while an audio task runs callbacks under seeded random schedules at the yield points around CommandWriter::write / CommandReader::read; the stamped history is checked for strictly increasing applications, promptness, no time travel, quiescence and intact payloads. (real) bursts of set_volume through real handles (sound, track, main, send, effect, tweener) and seek_by, observed as audio: the value in force is the last write and stays there.",
+   note="triple_buffer operations are atomic steps in the simulation; the decoder-side seek / loop-region commands of streaming sounds are exercised by C10 / C18.",
+   technique="deterministic simulation: sequential mailbox model over op histories + seeded thread schedules with a stamped-history (linearizability-style) check"),
  "C09": dict(level="exploration", design="3 C09",
    text="Differential simulation: one generated audio content / settings / command history is played by the static and by the streaming implementation side by side on the same simulated audio clock; the streaming decoder thread is a gated simulator task run until it sleeps or ends before every callback, with generated packet sizes and seek granularities. Outputs must be bit-identical, states identical at every callback, positions within one frame until the sound ends.",
    note="Decoder is a scripted stub; the real DecodeScheduler loop runs on its own (gated) thread. 'Keeps ahead' is enforced by construction (chunks <= 200 frames, rate <= 3).",
